@@ -8,6 +8,7 @@ mod names_drv;
 mod rdata_drv;
 mod reader_drv;
 mod server_drv;
+mod tsiglib_drv;
 mod writer_drv;
 
 fn main() {
@@ -22,6 +23,7 @@ fn main() {
         "rdata" => rdata_drv::main(&args[1..]),
         "reader" => reader_drv::main(&args[1..]),
         "writer" => writer_drv::main(&args[1..]),
+        "tsiglib" => tsiglib_drv::main(&args[1..]),
         "names" => names_drv::main(&args[1..]),
         d => {
             eprintln!("unknown driver {}", d);
